@@ -468,6 +468,38 @@ pub fn check(paths: &Paths, tier: &str) -> i32 {
     }
     samples.extend(l.samples.iter().cloned());
 
+    // ---------------- regression probes: replay files of repaired findings ----------------
+    let mut regressions_replayed = 0u64;
+    if let Ok(rd) = std::fs::read_dir(paths.verif.join("regression")) {
+        let mut files: Vec<PathBuf> = rd.filter_map(|e| e.ok()).map(|e| e.path()).filter(|p| p.extension().map(|x| x == "json").unwrap_or(false)).collect();
+        files.sort();
+        let wd = WorkerDir::new(&ctx.scratch, 998);
+        wd.install_aux(&ctx.corpus_dir);
+        for f in files {
+            let v: Value = match std::fs::read_to_string(&f).ok().and_then(|s| serde_json::from_str(&s).ok()) {
+                Some(v) => v,
+                None => continue,
+            };
+            if v["tier"] != "P" || v["property"] != "C11" {
+                continue;
+            }
+            if let (Some(job), Some(p)) = (job_from_json(&ctx.corpus, &v["job"]), Perturb::from_json(&v["perturb"])) {
+                regressions_replayed += 1;
+                let inv = v["violation"]["invariant"].as_str().unwrap_or("");
+                let mut st = RunStats::default();
+                let got = if inv == "I5" { tierp::check_exclusion(&ctx, &wd, &job, &mut st) } else { tierp::execute(&ctx, &wd, &job, &p, &mut st) };
+                if let Some(g) = got {
+                    let sig = signature("P", &job.to_json(&ctx.corpus), &g);
+                    if known.matches(&sig).is_none() {
+                        println!("  a repaired finding is back: {}", f.display());
+                        violations.push((sig, f.clone()));
+                    }
+                }
+            }
+        }
+        let _ = std::fs::remove_dir_all(&wd.root);
+    }
+
     // ---------------- tier D ----------------
     let d_rounds = env_u64("VERIF_D_ROUNDS", if thorough { 8 } else { 1 });
     let d = if d_rounds > 0 {
@@ -521,6 +553,7 @@ pub fn check(paths: &Paths, tier: &str) -> i32 {
                 "exclusion_items_skipped_as_related": excl_skipped,
                 "rejected_source_diagnostic_mismatches_canary_not_judged": diag_mismatch,
                 "determinism_selfcheck_runs": sc_n,
+                "regression_replays_of_repaired_findings": regressions_replayed,
             },
             "tier_L": l.stats,
             "tier_D": d.stats,
